@@ -35,6 +35,8 @@ size_t g_d;               /* device-level ghost index for the lookup witness (ne
 size_t g_dfound;          /* device-level ghost witness: position the device lookup returned */
 uint16_t g_dkey0;         /* ghost snapshot: device key at g_i on entry */
 uint32_t g_lastkey;       /* ghost snapshot: key of the last entry on entry (swap-with-last removal) */
+struct ASAM_CMP_DeviceStatus g_dev0, g_devlast;         /* ghost snapshots (shallow): the device entry at g_i / the last one, on entry */
+struct ASAM_CMP_InterfaceStatus g_if0, g_iflast;        /* ghost snapshots (shallow): the interface entry at g_i / the last one, on entry */
 /* Status::update replaces DeviceStatus::update.  The interface vector is a private member of DeviceStatus: its shape and the distinctness of its ids are
  * established and kept by DeviceStatus's own methods (proved in their own harnesses) and cannot be touched from Status (C++ access control), so -- as for
  * the other owning classes (DESIGN.md, public/private contract parts) -- those clauses are switched off where the member is replaced in this outside caller,
